@@ -23,7 +23,7 @@ RULE = ("kinds: sweep (2-4 samples, 2-5 treatments, D in 1..3, <= 12 observed ro
         "mvn (sample_mvn_from_precision with a stubbed generator against Model/Mvn.v).  Per step function the extracted model is "
         "restarted from the implementation's pre-block state.  Non-trivial: at least one observation.")
 THEOREMS = {
-    "C08_order": "the model's sweep order equals the call order read from the source of mcmc_step (Generated/Consts.v), is duplicate-free, contains every step function, starts with the reconstruction; mcmc_step is the composition in that order",
+    "C08_order": "the model's sweep order equals the call order read from the source of mcmc_step (Generated/ConstsMcmc.v), is duplicate-free, contains every step function, starts with the reconstruction; mcmc_step is the composition in that order",
     "C08_gauss_block_W0": "W0[c] draw N(m, v): energy(W0[c]:=x) - energy(W0[c]:=0) = (x^2 - 2 m x)/v, i.e. the full conditional (all data, exact cache)",
     "C08_gauss_block_V0": "same for V0[m], under NoSelfCombo",
     "C08_gauss_block_W": "W[c] draw (Q, b): energy difference = x'Qx - 2 b'x, i.e. N(Q^-1 b, Q^-1) is the full conditional",
